@@ -69,9 +69,9 @@ theorem unusedName_no47 (b : Nat) :
 
 /-! ### extract-files -/
 
-theorem extractLoop_confined (dest : Bytes) (ctxDir : Nat) (data : Media) (l : List Entry)
+theorem extractLoop_confined (env : Env) (dest : Bytes) (ctxDir : Nat) (data : Media) (l : List Entry)
     (files : List (Bytes × Bytes)) (hf : ∀ p ∈ files, InsideDir dest p.1) :
-    ∀ p ∈ filesOf (extractLoop dest ctxDir data l files), InsideDir dest p.1 := by
+    ∀ p ∈ filesOf (extractLoop env dest ctxDir data l files), InsideDir dest p.1 := by
   induction l generalizing files with
   | nil => simpa [extractLoop] using hf
   | cons e rest ih =>
@@ -84,6 +84,8 @@ theorem extractLoop_confined (dest : Bytes) (ctxDir : Nat) (data : Media) (l : L
       rcases h with h | h
       · exact extractName_no47 _ _ h
       · exact inf_no47 h
+    split
+    · simpa using hf
     split
     · simp only [filesOf_threw]
       intro p hp
@@ -110,9 +112,28 @@ theorem extract_files_confined (env : Env) (a0 a : Bytes) (_ha : a ≠ []) :
     · simp
     · simp
     · simp
-    · exact extractLoop_confined _ _ _ _ [] (by simp)
+    · exact extractLoop_confined _ _ _ _ _ [] (by simp)
 
 /-! ### extract-unused -/
+
+theorem unusedLoop_confined (env : Env) (dest : Bytes) (m : Media) (spans : List (Nat × Nat))
+    (files : List (Bytes × Bytes)) (warned : Bool) (hf : ∀ p ∈ files, InsideDir dest p.1) :
+    ∀ p ∈ (unusedLoop env dest m spans files warned).1, InsideDir dest p.1 := by
+  induction spans generalizing files warned with
+  | nil => simpa [unusedLoop] using hf
+  | cons s rest ih =>
+    obtain ⟨b, e⟩ := s
+    simp only [unusedLoop]
+    split
+    · exact hf
+    · apply ih
+      intro p hp
+      rw [List.mem_append, List.mem_singleton] at hp
+      rcases hp with hp | hp
+      · exact hf p hp
+      · subst hp
+        refine ⟨strBytes "unused_" ++ padLeft 3 48 (hexU b) ++ strBytes ".bin", ?_, unusedName_no47 b⟩
+        simp [List.append_assoc]
 
 theorem extract_unused_confined (env : Env) (a0 a : Bytes) (_ha : a ≠ []) :
     ∀ p ∈ filesOf (cmdExtractUnused env [a0, a]), InsideDir (destDir a) p.1 := by
@@ -126,14 +147,190 @@ theorem extract_unused_confined (env : Env) (a0 a : Bytes) (_ha : a ≠ []) :
       · simp
       · simp
       · split
-        · simp only [filesOf_done, List.map_map]
-          intro p hp
-          rw [List.mem_map] at hp
-          obtain ⟨⟨b, e⟩, _, hp⟩ := hp
-          subst hp
-          refine ⟨strBytes "unused_" ++ padLeft 3 48 (hexU b) ++ strBytes ".bin", ?_, unusedName_no47 b⟩
-          simp [List.append_assoc]
+        · split
+          · next files warned hu =>
+            have h := congrArg Prod.fst hu
+            simp only [filesOf_done] at h ⊢
+            rw [← h]
+            exact unusedLoop_confined env _ _ _ [] false (by simp)
+          · next files warned hu =>
+            have h := congrArg Prod.fst hu
+            simp only [filesOf_done] at h ⊢
+            rw [← h]
+            exact unusedLoop_confined env _ _ _ [] false (by simp)
         · simp
+
+/-! ### no created file bears the name of an image file -/
+
+theorem not_image_of_false (env : Env) (path : Bytes) (h : env.isImageFile path = false) :
+    path ∉ env.images := by
+  intro hm
+  have : env.isImageFile path = true := by
+    unfold Env.isImageFile
+    exact List.contains_iff_mem.mpr hm
+  rw [h] at this
+  cases this
+
+theorem extractLoop_spares (env : Env) (dest : Bytes) (ctxDir : Nat) (data : Media) (l : List Entry)
+    (files : List (Bytes × Bytes)) (hf : ∀ p ∈ files, p.1 ∉ env.images) :
+    ∀ p ∈ filesOf (extractLoop env dest ctxDir data l files), p.1 ∉ env.images := by
+  induction l generalizing files with
+  | nil => simpa [extractLoop] using hf
+  | cons e rest ih =>
+    simp only [extractLoop]
+    split
+    · simpa using hf
+    next hno =>
+    rw [Bool.or_eq_true, not_or] at hno
+    have h1 : dest ++ extractName ctxDir e ∉ env.images :=
+      not_image_of_false _ _ (by simpa using hno.1)
+    have h2 : dest ++ extractName ctxDir e ++ strBytes ".inf" ∉ env.images :=
+      not_image_of_false _ _ (by simpa using hno.2)
+    split
+    · simp only [filesOf_threw]
+      intro p hp
+      rw [List.mem_append, List.mem_singleton] at hp
+      rcases hp with hp | hp
+      · exact hf p hp
+      · subst hp; exact h1
+    · apply ih
+      intro p hp
+      rw [List.mem_append] at hp
+      rcases hp with hp | hp
+      · exact hf p hp
+      · simp only [List.mem_cons, List.not_mem_nil, or_false] at hp
+        rcases hp with hp | hp
+        · subst hp; exact h1
+        · subst hp; exact h2
+
+theorem extract_files_spares_images (env : Env) (args : List Bytes) :
+    ∀ p ∈ filesOf (cmdExtractFiles env args), p.1 ∉ env.images := by
+  simp only [cmdExtractFiles]
+  split
+  · split
+    · simp
+    · split
+      · simp
+      · simp
+      · simp
+      · exact extractLoop_spares _ _ _ _ _ [] (by simp)
+  · simp
+
+theorem unusedLoop_spares (env : Env) (dest : Bytes) (m : Media) (spans : List (Nat × Nat))
+    (files : List (Bytes × Bytes)) (warned : Bool) (hf : ∀ p ∈ files, p.1 ∉ env.images) :
+    ∀ p ∈ (unusedLoop env dest m spans files warned).1, p.1 ∉ env.images := by
+  induction spans generalizing files warned with
+  | nil => simpa [unusedLoop] using hf
+  | cons s rest ih =>
+    obtain ⟨b, e⟩ := s
+    simp only [unusedLoop]
+    split
+    · exact hf
+    next hno =>
+    apply ih
+    intro p hp
+    rw [List.mem_append, List.mem_singleton] at hp
+    rcases hp with hp | hp
+    · exact hf p hp
+    · subst hp
+      exact not_image_of_false _ _ (by simpa using hno)
+
+theorem extract_unused_spares_images (env : Env) (args : List Bytes) :
+    ∀ p ∈ filesOf (cmdExtractUnused env args), p.1 ∉ env.images := by
+  simp only [cmdExtractUnused]
+  split
+  · simp
+  · split
+    · split
+      · simp
+      · split
+        · simp
+        · simp
+        · simp
+        · split
+          · split
+            · next files warned hu =>
+              have h := congrArg Prod.fst hu
+              simp only [filesOf_done] at h ⊢
+              rw [← h]
+              exact unusedLoop_spares env _ _ _ [] false (by simp)
+            · next files warned hu =>
+              have h := congrArg Prod.fst hu
+              simp only [filesOf_done] at h ⊢
+              rw [← h]
+              exact unusedLoop_spares env _ _ _ [] false (by simp)
+          · simp
+    · simp
+
+/-! ### the extract loops consult the environment only through `isImageFile`, and only
+    for paths inside the destination -/
+
+theorem extractLoop_agree (e1 e2 : Env) (dest : Bytes) (ctxDir : Nat) (data : Media) (l : List Entry)
+    (files : List (Bytes × Bytes))
+    (h : ∀ leaf, e1.isImageFile (dest ++ leaf) = e2.isImageFile (dest ++ leaf)) :
+    extractLoop e1 dest ctxDir data l files = extractLoop e2 dest ctxDir data l files := by
+  induction l generalizing files with
+  | nil => simp [extractLoop]
+  | cons e rest ih =>
+    simp only [extractLoop]
+    rw [List.append_assoc dest, h, h]
+    split
+    · rfl
+    · split
+      · rfl
+      · exact ih _
+
+theorem unusedLoop_agree (e1 e2 : Env) (dest : Bytes) (m : Media) (spans : List (Nat × Nat))
+    (files : List (Bytes × Bytes)) (warned : Bool)
+    (h : ∀ leaf, e1.isImageFile (dest ++ leaf) = e2.isImageFile (dest ++ leaf)) :
+    unusedLoop e1 dest m spans files warned = unusedLoop e2 dest m spans files warned := by
+  induction spans generalizing files warned with
+  | nil => simp [unusedLoop]
+  | cons s rest ih =>
+    obtain ⟨b, e⟩ := s
+    simp only [unusedLoop]
+    rw [List.append_assoc dest, List.append_assoc dest, h]
+    split
+    · rfl
+    · exact ih _ _
+
+theorem extractLoop_images (e1 e2 : Env) (h : e1.images = e2.images) :
+    extractLoop e1 = extractLoop e2 := by
+  funext dest ctxDir data l files
+  exact extractLoop_agree e1 e2 dest ctxDir data l files (fun _ => by simp [Env.isImageFile, h])
+
+theorem unusedLoop_images (e1 e2 : Env) (h : e1.images = e2.images) :
+    unusedLoop e1 = unusedLoop e2 := by
+  funext dest m spans files warned
+  exact unusedLoop_agree e1 e2 dest m spans files warned (fun _ => by simp [Env.isImageFile, h])
+
+/-- extract-files gives the same result when the two lists of image names agree on
+    every path inside the destination -/
+theorem cmdExtractFiles_agree (env : Env) (i1 i2 : List Bytes) (args : List Bytes)
+    (h : ∀ a0 a, args = [a0, a] → ∀ leaf, i1.contains (destDir a ++ leaf) = i2.contains (destDir a ++ leaf)) :
+    cmdExtractFiles { env with images := i1 } args = cmdExtractFiles { env with images := i2 } args := by
+  simp only [cmdExtractFiles]
+  split
+  · next a0 a =>
+    have hh := fun c d l f => extractLoop_agree { env with images := i1 } { env with images := i2 } (destDir a)
+      c d l f (fun leaf => h a0 a rfl leaf)
+    simp only [hh]
+    rfl
+  · rfl
+
+theorem cmdExtractUnused_agree (env : Env) (i1 i2 : List Bytes) (args : List Bytes)
+    (h : ∀ a0 a, args = [a0, a] → ∀ leaf, i1.contains (destDir a ++ leaf) = i2.contains (destDir a ++ leaf)) :
+    cmdExtractUnused { env with images := i1 } args = cmdExtractUnused { env with images := i2 } args := by
+  simp only [cmdExtractUnused]
+  split
+  · rfl
+  · split
+    · next a0 a =>
+      have hh := fun m sp f w => unusedLoop_agree { env with images := i1 } { env with images := i2 } (destDir a)
+        m sp f w (fun leaf => h a0 a rfl leaf)
+      simp only [hh]
+      rfl
+    · rfl
 
 theorem dest_shape (a : Bytes) : destDir a = a ∨ destDir a = a ++ [47] := by
   unfold destDir
@@ -390,5 +587,129 @@ theorem run_confined (fs : HostFs) (nd : Bool) (cols : Option Nat) (opts : List 
         · next r hr =>
           have h := runCommand_files _ _ r hr
           cases r <;> exact h
+
+/-! ### the images of a run -/
+
+/-- a successful `--file` option records its argument, after those already recorded -/
+theorem attachFile_images (fs : HostFs) (nd : Bool) (arg : Bytes) (st st' : MainState)
+    (h : attachFile fs nd arg st = .ok st') : st'.images = st.images ++ [arg] := by
+  unfold attachFile at h
+  split at h
+  · cases h
+  · split at h
+    · cases h
+    · cases h
+    · dsimp only at h
+      split at h
+      · cases h
+      · cases h
+      · cases h
+      · split at h
+        · cases h
+        · split at h
+          · cases h
+          · cases h; rfl
+      · split at h
+        · cases h
+        · split at h
+          · cases h
+          · cases h; rfl
+
+/-- the option loop only ever extends the list of image names, and every `--file`
+    argument it has passed is on it -/
+theorem optLoop_images (fs : HostFs) (nd : Bool) (opts : List Opt) (st0 st : MainState)
+    (h : optLoop fs nd opts st0 = .ok st) :
+    (∃ more, st.images = st0.images ++ more) ∧
+    ∀ name, Opt.opt .file name ∈ opts → name ∈ st.images := by
+  induction opts generalizing st0 with
+  | nil =>
+    simp only [optLoop] at h
+    cases h
+    exact ⟨⟨[], by simp⟩, by simp⟩
+  | cons o more ih =>
+    cases o with
+    | bad => simp [optLoop] at h
+    | opt o arg =>
+      have other : ∀ st1 : MainState, optLoop fs nd more st1 = .ok st →
+          st1.images = st0.images → o ≠ .file →
+          (∃ more, st.images = st0.images ++ more) ∧
+          ∀ name, Opt.opt .file name ∈ Opt.opt o arg :: more → name ∈ st.images := by
+        intro st1 hl h1 ho
+        obtain ⟨⟨ext, hext⟩, hmem⟩ := ih st1 hl
+        refine ⟨⟨ext, by rw [hext, h1]⟩, ?_⟩
+        intro name hn
+        rw [List.mem_cons] at hn
+        rcases hn with hn | hn
+        · cases hn; exact absurd rfl ho
+        · exact hmem name hn
+      cases o <;> simp only [optLoop] at h
+      case file =>
+        split at h
+        · cases h
+        · next st' ha =>
+          have hi := attachFile_images fs nd arg st0 st' ha
+          obtain ⟨⟨ext, hext⟩, hmem⟩ := ih st' h
+          refine ⟨⟨[arg] ++ ext, by rw [hext, hi, List.append_assoc]⟩, ?_⟩
+          intro name hn
+          rw [List.mem_cons] at hn
+          rcases hn with hn | hn
+          · cases hn
+            rw [hext, hi]
+            simp
+          · exact hmem name hn
+      case help => cases h
+      all_goals
+        first
+        | exact other _ h rfl (by intro hc; cases hc)
+        | (split at h
+           · cases h
+           · first
+             | exact other _ h rfl (by intro hc; cases hc)
+             | (split at h
+                · cases h
+                · exact other _ h rfl (by intro hc; cases hc)))
+
+theorem runCommand_spares (env : Env) (args : List Bytes) (r : CmdRes) (hr : runCommand env args = some r) :
+    ∀ p ∈ filesOf r, p.1 ∉ env.images := by
+  by_cases h1 : args.head? = some (strBytes "extract-files")
+  · cases args with
+    | nil => simp at h1
+    | cons c t =>
+      simp only [List.head?_cons, Option.some.injEq] at h1
+      subst h1
+      rw [runCommand_ef] at hr
+      cases hr
+      exact extract_files_spares_images env _
+  · by_cases h2 : args.head? = some (strBytes "extract-unused")
+    · cases args with
+      | nil => simp at h2
+      | cons c t =>
+        simp only [List.head?_cons, Option.some.injEq] at h2
+        subst h2
+        rw [runCommand_eu] at hr
+        cases hr
+        exact extract_unused_spares_images env _
+    · rw [other_commands_create_nothing env args r ⟨h1, h2⟩ hr]
+      simp
+
+theorem run_spares_images (fs : HostFs) (nd : Bool) (cols : Option Nat) (opts : List Opt) (rest : List Bytes)
+    (st : MainState) (hst : optLoop fs nd opts default = .ok st) :
+    (∀ name, Opt.opt .file name ∈ opts → name ∈ st.images) ∧
+    ∀ p ∈ (dfsRun fs nd cols opts rest).files, p.1 ∉ st.images := by
+  refine ⟨(optLoop_images fs nd opts default st hst).2, ?_⟩
+  unfold dfsRun
+  rw [hst]
+  dsimp only
+  cases rest with
+  | nil => simp
+  | cons cmd t =>
+    dsimp only
+    split
+    · simp
+    · split
+      · simp
+      · next r hr =>
+        have h := runCommand_spares _ _ r hr
+        cases r <;> exact h
 
 end Beeb.FsL
